@@ -419,8 +419,19 @@ impl IncrementalEngine {
         // Evaluate each fact type using per-fact evaluation
         for fact_type in fact_types {
             let facts_of_type = self.working_memory.get_by_type(&fact_type);
+            let affected_rules = self.dependencies.get_affected_rules(&fact_type);
 
-            for rule in self.rules.iter() {
+            for (rule_idx, rule) in self.rules.iter().enumerate() {
+                // Only rules that depend on this fact type, as in propagate_changes_for_type
+                // (a rule that declared no dependency at all is still tried everywhere): a rule
+                // over another type finds none of its fields in these facts, and a negated
+                // comparison on an absent field matched every fact of every other type
+                if !affected_rules.contains(&rule_idx)
+                    && !self.dependencies.get_rule_dependencies(rule_idx).is_empty()
+                {
+                    continue;
+                }
+
                 // Skip if rule has no-loop and already fired
                 if rule.no_loop && self.agenda.has_fired(&rule.name) {
                     continue;
